@@ -7,6 +7,13 @@ from ..rules import config
 def detection_witnesses():
     w = witness.Witnesses('c16', ['<amc/vector.hpp>', '<amc/smallvector.hpp>', '<amc/fixedcapacityvector.hpp>', '<amc/flatset.hpp>', 'oracle.hpp', '<utility>', '<cstdint>'])
     w.prelude.append('''
+namespace k16 {
+struct ThrowingAdlSwap { ThrowingAdlSwap(ThrowingAdlSwap&&) noexcept; ThrowingAdlSwap& operator=(ThrowingAdlSwap&&) noexcept; ~ThrowingAdlSwap(); int a; };
+void swap(ThrowingAdlSwap&, ThrowingAdlSwap&);                 // found by ADL, may throw although the moves cannot
+struct NoexceptAdlSwap { NoexceptAdlSwap(NoexceptAdlSwap&&); NoexceptAdlSwap& operator=(NoexceptAdlSwap&&); ~NoexceptAdlSwap(); int a; };
+void swap(NoexceptAdlSwap&, NoexceptAdlSwap&) noexcept;         // found by ADL, cannot throw although the moves can
+struct ThrowingMoves { ThrowingMoves(ThrowingMoves&&); ThrowingMoves& operator=(ThrowingMoves&&); ~ThrowingMoves(); int a; };
+}
 using V = amc::SmallVector<int, 4>;
 using F = amc::FlatSet<int>;
 template <class X> using append_t = decltype(std::declval<X &>().append(2));
@@ -38,6 +45,13 @@ template <class X> using insert_t = decltype(std::declval<X &>().insert(1));
     w.add('CONST', 'sizeof|SmallVector<int,5>', 'sizeof(void*) != 8 || sizeof(amc::SmallVector<int, 5>) == 32', 'layout constant identical in every configuration')
     w.add('CONST', 'sizetype|256', 'std::is_same<amc::vec::SmallestSizeType<256>::type, std::uint16_t>::value', 'SmallestSizeType identical in every configuration')
     w.add('CONST', 'sizetype|255', 'std::is_same<amc::vec::SmallestSizeType<255>::type, std::uint8_t>::value', 'SmallestSizeType identical in every configuration')
+    for t in ('int', 'k16::ThrowingAdlSwap', 'k16::NoexceptAdlSwap', 'k16::ThrowingMoves', 'amc::vector<int>', 'amc::FixedCapacityVector<k16::ThrowingAdlSwap, 3>'):
+        w.add('CONST', 'nothrow_swappable|' + t, 'amc::is_nothrow_swappable<%s >::value == oracle::sw::nothrow<%s >::value' % (t, t),
+              'is_nothrow_swappable<%s> is the noexcept of the swap that unqualified lookup + ADL selects, in every standard' % t)
+    for t in ('k16::ThrowingAdlSwap', 'k16::ThrowingMoves'):
+        V3 = 'amc::SmallVector<%s, 3>' % t
+        w.add('CONST', 'swap_noexcept|' + t, 'noexcept(std::declval<%s &>().swap(std::declval<%s &>())) == (std::is_nothrow_move_constructible<%s >::value && oracle::sw::nothrow<%s >::value)' % (V3, V3, t, t),
+              'swap of SmallVector<%s,3> has the same exception specification in every standard' % t)
     w.add('CONST', 'nothrow_swappable', 'amc::is_nothrow_swappable<int>::value && amc::is_nothrow_swappable<amc::vector<int> >::value', 'is_nothrow_swappable emulation agrees with the standard trait')
     w.add('DETECT', 'std|push_back', 'oracle::is_detected<push_back_t, V>::value', 'standard members stay available in every mode')
     w.add('DETECT', 'std|insert', 'oracle::is_detected<insert_t, F>::value', 'standard members stay available in every mode')
